@@ -24,6 +24,10 @@ struct Gen {
 }
 
 impl Gen {
+    /// long-horizon host (max_entry_ttl about a year) for the idle-gap sequences
+    fn new_long(fl: Flavour, min_temp: u32, start: u32, full_scan: bool) -> Gen {
+        Gen { s: Sim::with_ttl(fl, min_temp, start, MAX_TTL_LONG), ids: vec![], batches: vec![], touched: vec![], next: 0, full_scan }
+    }
     fn new(fl: Flavour, min_temp: u32, start: u32, full_scan: bool) -> Gen {
         Gen { s: Sim::new(fl, min_temp, start), ids: vec![], batches: vec![], touched: vec![], next: 0, full_scan }
     }
@@ -519,6 +523,68 @@ fn directed(t: &mut Trace, rng: &mut Rng) {
     g.run(t, rng, "transfer_from", &[3, 4, 5], 0, 0, 0, &[3]);
 }
 
+/// "long idle" family: populate (mints / batches, transfers, burns, third-party moves), then
+/// let 1 day, 31 days and 100 days pass WITHOUT any call in between, observing everything after
+/// each gap, then mint again and go on. Persistent / instance data (owners, balances, lists,
+/// buckets, marks, burned markers, the id counter) must be unchanged by the gaps and new ids
+/// must lie above every id ever issued.
+fn long_idle(t: &mut Trace, rng: &mut Rng, fl: Flavour, min_temp: u32, what: &str, one_gap: bool) {
+    let mut g = Gen::new_long(fl, min_temp, 100, true);
+    t.seq(&g.s.label(what));
+    match fl {
+        Flavour::Cons => {
+            for n in [*rng.pick(&[1u32, 2, 33, 100]), *rng.pick(&[31u32, 32, 99, 101]), *rng.pick(&[1u32, 5, 64])] {
+                let to = person(rng);
+                g.run(t, rng, "batch_mint", &[to], 0, n, 0, &[]);
+            }
+        }
+        _ => {
+            for _ in 0..6 {
+                let to = person(rng);
+                g.run(t, rng, "mint", &[to], 0, 0, 0, &[]);
+            }
+            if fl == Flavour::Exp {
+                let to = person(rng);
+                g.run(t, rng, "mint_id", &[to], 70_000, 0, 0, &[]);
+            }
+        }
+    }
+    for _ in 0..10 {
+        gen_op(t, rng, &mut g);
+    }
+    // make sure something was burned and something moved
+    for id in [1u32, 3] {
+        if let Some(o) = g.s.owner_of(id).filter(|&o| o < N) {
+            if id == 1 {
+                g.run(t, rng, "burn", &[o], id, 0, 0, &[o]);
+            } else {
+                g.run(t, rng, "transfer", &[o, (o + 1) % N], id, 0, 0, &[o]);
+            }
+        }
+    }
+    let gaps: &[u32] = if one_gap { &[100] } else { &[1, 31, 100] };
+    for &days in gaps {
+        g.advance(t, rng, days * LEDGERS_PER_DAY);
+    }
+    // life goes on: new ids, more moves
+    let to = person(rng);
+    match fl {
+        Flavour::Cons => {
+            g.run(t, rng, "batch_mint", &[to], 0, 3, 0, &[]);
+        }
+        _ => {
+            g.run(t, rng, "mint", &[to], 0, 0, 0, &[]);
+        }
+    }
+    for _ in 0..6 {
+        gen_op(t, rng, &mut g);
+    }
+    g.advance(t, rng, 31 * LEDGERS_PER_DAY);
+    for _ in 0..3 {
+        gen_op(t, rng, &mut g);
+    }
+}
+
 fn main() {
     let mut t = Trace::from_args();
     let seed = seed_from_env();
@@ -527,6 +593,16 @@ fn main() {
     let len = arg_u64("--len", 40);
     let mut rng = Rng::new(seed);
     directed(&mut t, &mut rng);
+    for fl in [Flavour::Cons, Flavour::Enum, Flavour::Seq, Flavour::Exp] {
+        long_idle(&mut t, &mut rng, fl, 1, "directed long idle 1d 31d 100d", false);
+    }
+    long_idle(&mut t, &mut rng, Flavour::Cons, 16, "directed long idle 100d", true);
+    for k in 0..arg_u64("--long", if thorough { 40 } else { 4 }) {
+        let fl = *rng.pick(&[Flavour::Cons, Flavour::Cons, Flavour::Enum, Flavour::Seq, Flavour::Exp]);
+        let min_temp = if rng.chance(50) { 1 } else { 16 };
+        let one = rng.chance(30);
+        long_idle(&mut t, &mut rng, fl, min_temp, &format!("rand long idle k={} seed={}", k, seed), one);
+    }
     for k in 0..nseq {
         let mut fl = match rng.below(10) {
             0 => Flavour::Seq,
